@@ -184,10 +184,11 @@ class InstWorld(World):
             "Daemon.create_single_instance_lock replaced by a subclass of the simulated lock that counts contention"]
     PROBES = ["concurrent_first_calls_overlapped", "falsy_shape", "eq_shape", "creator_used", "creator_failed",
               "creator_wrong_type", "session_dropped_verified", "percall", "multiplex", "thread", "reconnect",
-              "single", "session", "multi_class_connection", "preempted_in_getInstance", "session_dropped_while_others_connected"]
+              "single", "session", "multi_class_connection", "preempted_in_getInstance", "session_dropped_while_others_connected",
+              "session_dropped_after_reset"]
     RULE = ("plan = (server type, serializer, 1-3 registered classes out of {single,session,percall} x {truthy, falsy via __len__, "
             "falsy via __bool__, __eq__ always True, __eq__ always False} x {no creator, creator script of ok/raise/None/foreign "
-            "object per invocation}, 2-4 clients x 1-3 connections x 1-4 calls (a call may address another registered class over "
+            "object per invocation}, 2-4 clients x 1-3 connections (released or reset by the client; same or new proxy) x 0-4 calls (a call may address another registered class over "
             "the same connection), optional barrier releasing all first calls together, pre-emption probabilities); distinct = "
             "distinct interleaving digest; non-trivial = at least two connections were served successfully")
     ASSUMPTIONS = ["a connection has ended for the daemon once the client released it and the server threads have run until they block "
@@ -196,7 +197,7 @@ class InstWorld(World):
                    "a request needs at most one new instance, so at most one creator invocation may happen while serving one request",
                    "a creator that returns an object that is not an instance of the class has failed: the call must not be served by that object",
                    "methods of the workload classes never raise, so every error reply stems from instance creation"]
-    QUICK_RUNS = 6000
+    QUICK_RUNS = 8000
     CHUNK = 100
     SHRINK_LISTS = (["clients", "objs"] + ["clients.%d.sessions" % i for i in range(4)] +
                     ["clients.%d.sessions.%d.calls" % (i, j) for i in range(4) for j in range(3)] +
@@ -239,10 +240,10 @@ class InstWorld(World):
             for si in range(rng.choice([1, 1, 2, 3])):
                 so = 0 if (race and si == 0 and rng.random() < 0.85) else rng.randrange(nobj)
                 calls = []
-                for j in range(rng.randint(1, 4)):
+                for j in range(rng.randint(1, 4) if si == 0 else rng.choice([0, 1, 2, 3, 4])):
                     o = rng.randrange(nobj) if (nobj > 1 and rng.random() < 0.15 and not (race and si == 0 and j == 0)) else so
                     calls.append({"o": o, "pause": rng.choice([0, 0, 0, 0.01])})
-                sessions.append({"o": so, "reuse": rng.random() < 0.5, "calls": calls})
+                sessions.append({"o": so, "reuse": rng.random() < 0.5, "abort": rng.random() < 0.2, "calls": calls})
             clients.append({"start": rng.choice([0, 0, 0.01, 0.3]), "sessions": sessions})
         threaded = servertype == "thread"
         return {"servertype": servertype, "serializer": rng.choice(SERIALIZERS), "race": race, "objs": objs, "clients": clients,
@@ -277,7 +278,7 @@ class InstWorld(World):
                 p["objs"][k]["creator"] = None
                 yield p
         for i, c in enumerate(plan["clients"]):
-            dirty = c.get("start") or any(s.get("reuse") or any(x.get("pause") for x in s["calls"]) for s in c["sessions"])
+            dirty = c.get("start") or any(s.get("reuse") or s.get("abort") or any(x.get("pause") for x in s["calls"]) for s in c["sessions"])
             if dirty:
                 p = dict(plan)
                 p["clients"] = [dict(x) for x in plan["clients"]]
@@ -299,6 +300,11 @@ class InstWorld(World):
                     daemon.unregister(cls)      # the classes are module level: do not keep this run's daemon alive through them
                 except Exception:  # noqa
                     pass
+                # the run is over and judged: keep SocketServer_Threadpool.__del__ -> Pool.close() (which would do a REAL
+                # time.sleep(0.1) once the seams are gone) from slowing the batch down
+                pool = getattr(getattr(daemon, "transportServer", None), "pool", None)
+                if pool is not None:
+                    pool.closed = True
             run.sched = None
 
     def _scenario(self, ctx, run, registered):
@@ -392,6 +398,9 @@ class InstWorld(World):
                     if c.get("pause"):
                         sched.sleep(c["pause"])
                 try:
+                    if sess.get("abort") and p._pyroConnection is not None:
+                        p._pyroConnection.sock.rst()        # the client dies: the server sees a connection reset instead of EOF
+                        crec["aborted"] = True
                     p._pyroRelease()
                 except Exception as x:  # noqa
                     problems.append("release failed: %s" % type(x).__name__)
@@ -422,7 +431,14 @@ class InstWorld(World):
             if stt.died:
                 raise S.HarnessError("client thread died: %r" % (stt.died,))
         if any(sched.sim_thread_of(t).state != "done" for t in ths):
-            ctx.disturbed = "daemon loop died: %r" % (srv.loop_death(),) if not srv.loop_alive() else "a client hung"
+            if not srv.loop_alive():
+                ctx.disturbed = "daemon loop died: %r" % (srv.loop_death(),)
+            elif any(c["action"] != "ok" for c in run.creator_log):
+                # no method of the workload blocks: after a failed creation every later call must still be answered
+                ctx.violate("creator-failure-not-isolated", "hang", "after an instance creator failure a client got no reply to a call "
+                            "within 600 virtual seconds (%d calls answered)" % len(calls))
+            else:
+                ctx.disturbed = "a client hung"
             return
         sched.sleep(1.0)
         sched.settle(5.0)
@@ -441,7 +457,6 @@ class InstWorld(World):
 
     # ------------------------------------------------------------------ oracle
     def _judge(self, ctx, plan, run, by_key, calls, conns):
-        racing = bool(plan.get("race")) and plan["servertype"] == "thread"
         made_by_serial = {m["serial"]: m for m in run.made}
 
         def in_call(log, rec):
@@ -531,7 +546,13 @@ class InstWorld(World):
             made = [m for m in run.made if m["key"] == key]
             if e["mode"] == "single":
                 serials = sorted({r["serial"] for r in oks})
-                k = "falsy" if e["shape"] in FALSY else ("race" if racing else "sequential")
+                if e["shape"] in FALSY:
+                    k = "falsy"
+                else:
+                    # "race": two of the instances were constructed while serving calls that overlapped in time
+                    spans = [(r["inv"], r["ret"]) for m in made for r in calls
+                             if r["conn"] == m["conn"] and r["inv"] < m["stamp"] < r["ret"]]
+                    k = "race" if any(a[0] < b[1] and b[0] < a[1] for i, a in enumerate(spans) for b in spans[i + 1:]) else "sequential"
                 if len(serials) > 1:
                     ctx.violate("single-multiple-instances", k, "calls on the 'single' class %s were served by instances %s (%d constructed, %d calls on %d connections)"
                                 % (key, serials, len(made), len(oks), len({r["conn"] for r in oks})))
@@ -583,6 +604,8 @@ class InstWorld(World):
                 ctx.probe("session_dropped_verified")
                 if c["others_open"]:
                     ctx.probe("session_dropped_while_others_connected")
+                if c.get("aborted"):
+                    ctx.probe("session_dropped_after_reset")
             if c["reconnect"] and c["conn"] in ok_conns:
                 ctx.probe("reconnect")
         sess = [m for m in run.made if m["mode"] == "session"]
